@@ -96,15 +96,14 @@ StepOK(inst, pre, st)   == TRUE
 FinalOK(inst, sol, fin) == TRUE
 
 (* ------------------- PART 2: implementation model ----------------------- *)
-\* QUIRK (MDCPDPEnv._step / _get_reward): `num_depot = td["capacity"].shape[-1]`.  The bundled
-\* generator documents and emits capacity [batch, 1] (capfmt "gen"): the code then believes in ONE
-\* depot whatever generator.num_depot says (reset still builds its tensors from generator.num_depot).
-\* capfmt "env" = capacity [batch, num_depot], the only shape for which the indices are right.
-NDC(inst)    == IF inst.capfmt = "gen" THEN 1 ELSE inst.nd
+\* MDCPDPEnv._step / _get_reward read `num_depot = td["capacity"].shape[-1]`.  Since the fix "MDCPDP expands a
+\* shared capacity to one entry per depot" _reset expands the generator's [batch, 1] capacity (capfmt "gen") to
+\* [batch, num_depot]; before, the code believed in ONE depot whatever generator.num_depot said.
+NDC(inst)    == inst.nd
 NLC(inst)    == NM(inst) - NDC(inst)
 Half(inst)   == NLC(inst) \div 2
 Split(inst)  == Half(inst) + NDC(inst)            \* pd_split_idx
-CapVec(inst) == IF inst.capfmt = "gen" THEN <<inst.cap[1]>> ELSE inst.cap
+CapVec(inst) == inst.cap
 
 Init0(inst) == [cur |-> 0, cd |-> 0, carry |-> 0,
                 avail |-> Actions(inst),
@@ -119,20 +118,36 @@ Done(inst, s) == s.done
 \* `back_flag`: a depot that is no longer available is chosen = the vehicle returns
 Back(inst, s, a) == a < NDC(inst) /\ a \notin s.avail
 
-\* QUIRK: `current_depot = torch.where(back_flag, current_node, current_depot)` -- updated only on a
-\* RETURN (where it already equals the node), never when a new depot is opened: current_depot keeps
-\* its reset value for the whole episode.  Consequences transcribed below: every route is accumulated
-\* in slot current_depot of current_length, arrival times continue across routes, the capacity of
-\* depot current_depot applies to every vehicle, a finished row is offered depot current_depot, and
-\* (three or more depots) a vehicle that is not the last one is offered depot current_depot as its
-\* "way home" -- a third visit of that depot -- while its own depot stays hidden.
-NewDepot(inst, s, a) == IF Back(inst, s, a) THEN a ELSE s.cd
+\* FIXED by "fix: MDCPDP tracks the depot of the vehicle that is currently driving":
+\* `current_depot = torch.where(current_node < num_depot, current_node, current_depot)` -- every
+\* depot action (opening a vehicle or bringing it home) makes that depot the current one.
+\* Before the fix the update was conditioned on back_flag, i.e. it only fired on a RETURN (where the
+\* node already equals current_depot): current_depot kept its reset value for the whole episode, all
+\* routes were accumulated in one slot of current_length (minmax = minsum, arrival times continued
+\* across vehicles), depot 0's capacity applied to every vehicle, and with three or more depots a
+\* non-last vehicle was offered depot 0 as its "way home" while its own depot stayed hidden.
+NewDepot(inst, s, a) == IF a < NDC(inst) THEN a ELSE s.cd
 
-\* step length: 0 between two depots; 0 for the way home when routes are open
+\* step length: 0 between two depots; 0 for the way home when routes are open;
+\* FIXED by "fix: MDCPDP charges the last vehicle's way home in closed mode and nothing after
+\* finishing": 0 on every step taken after the episode has finished (`was_done`).  Before the fix a
+\* padding step of a finished row (customer -> current depot) was charged like a normal step, so the
+\* reward of closed-route instances depended on how long the row was padded.
+\* (FIXED by "fix: MDCPDP accumulates each instance's own step length": the length is the row's own
+\* [B,1] value; before, a [B] vs [B,1] broadcast made every row accumulate the step length of batch
+\* row 0 -- not expressible in a per-instance model, which is why lengths used to be compared only
+\* for rows stepped as a batch of one.)
 StepLen(inst, s, a) ==
-  IF a < NDC(inst) /\ s.cur < NDC(inst) THEN 0
+  IF s.done THEN 0
+  ELSE IF a < NDC(inst) /\ s.cur < NDC(inst) THEN 0
   ELSE IF inst.open = 1 /\ a < NDC(inst) /\ s.cur >= NDC(inst) THEN 0
   ELSE Dist(inst.D, s.cur, a)
+
+\* FIXED by the same commit: closed routes -- on the FINISHING step the last vehicle's way home
+\* (current node -> current depot) is added to its route length, after the arrival time of the node
+\* has been recorded.  Before the fix that leg was never charged unless the row happened to be padded.
+HomeLeg(inst, s, a, cd, dn) ==
+  IF inst.open = 0 /\ dn /\ ~s.done THEN Dist(inst.D, a, cd) ELSE 0
 
 Step(inst, s, a) ==
   LET ndc   == NDC(inst)
@@ -141,15 +156,16 @@ Step(inst, s, a) ==
       todel == s.todel \cup {(a + Half(inst)) % NM(inst)}
       carry == s.carry + (IF a >= ndc /\ a < Split(inst) THEN 1 ELSE 0) - (IF a >= Split(inst) THEN 1 ELSE 0)
       cd    == NewDepot(inst, s, a)
-      len   == [s.len EXCEPT ![cd + 1] = @ + StepLen(inst, s, a)]
-      arr   == [s.arr EXCEPT ![a + 1] = len[cd + 1]]
+      dn    == avail = {}
+      len1  == [s.len EXCEPT ![cd + 1] = @ + StepLen(inst, s, a)]
+      arr   == [s.arr EXCEPT ![a + 1] = len1[cd + 1]]
+      len   == [len1 EXCEPT ![cd + 1] = @ + HomeLeg(inst, s, a, cd, dn)]
       m0    == avail \cap todel
       m1    == IF carry >= CapVec(inst)[cd + 1] THEN m0 \ (ndc..(Split(inst) - 1)) ELSE m0
       cust  == IF back THEN {} ELSE {x \in m1 : x >= ndc}      \* after a return a depot must follow
       dep0  == IF back THEN {x \in m1 : x < ndc} \ {cd} ELSE {cd}
       dep1  == IF {x \in avail : x < ndc} = {} THEN {} ELSE dep0   \* last vehicle finishes the job
       dep2  == IF carry > 0 THEN {} ELSE dep1
-      dn    == avail = {}
       dep3  == IF dn THEN dep2 \cup {cd} ELSE dep2
   IN [cur |-> a, cd |-> cd, carry |-> carry, avail |-> avail, todel |-> todel,
       len |-> len, arr |-> arr, mask |-> cust \cup dep3, done |-> dn]
@@ -161,13 +177,12 @@ RewardM(inst, s, hist) ==
   ELSE IF inst.rmode = "minmax" THEN 0 - 4 * MaxSeq(s.len)
   ELSE 0 - ((4 - inst.w4) * SumSeq(s.len) + inst.w4 * LateM(inst, s))
 
-\* exec "batch": rows are stepped in one real batch; the accumulated lengths then contain the step
-\* lengths of batch row 0 (finding, not expressible per instance) and are left out of the comparison.
-\* exec "row": every row is stepped as a batch of one; lengths and arrival times must agree.
+\* exec "batch": the rows are stepped by one real env.step call; exec "row": every row is stepped as
+\* its own batch of one.  Since the step-length fix both must agree with the model field by field.
 ConfState(inst, s, st) ==
   /\ st.cur = s.cur /\ st.cd = s.cd /\ st.carry = s.carry
   /\ ToSetU(st.avail) = s.avail /\ ToSetU(st.todel) = s.todel
-  /\ inst.exec = "row" => (st.len = s.len /\ st.arr = s.arr)
+  /\ st.len = s.len /\ st.arr = s.arr
 
 PadAction(inst) == 0
 =============================================================================
